@@ -2,4 +2,4 @@
 
 package piece
 
-func verifYield(point string) {}
+func verifYield(point string, index int) {}
